@@ -86,6 +86,11 @@ def as_cmp(e):
         return (NEG[cm[0]], cm[1], cm[2]) if cm else None
     if e[0] == "isvar":
         return ("Eq", e[1], ("agg", e[3], e[4], ()))
+    if e[0] == "isint":
+        return ("Eq", e[1], ("const", "int", e[2]))
+    if e[0] == "rc":
+        rg = dict(mir.strip(e[2][2][0])[3])
+        return ("Le", rg["start"], e[2][2][1]) if e[1] == "lo" else ("Lt", e[2][2][1], rg["end"])
     cm = None
     if e[0] == "bin" and e[1] in SWAP:
         cm = (e[1], e[2], e[3])
@@ -179,6 +184,9 @@ def loop_with_source(body, pred):
             if rv is not None:
                 # `for i in 0..v.len()` ranges over the positions of v: the same loop as `for (i, x) in v.iter().enumerate()` (K3 reads `i` and `v[i]` accordingly)
                 src = ("call", "std::iter::Iterator::enumerate", (rv,))
+            zc = mir.zip_counter(("elem", src)) if src[0] == "call" else None
+            if zc is not None:
+                src = ("call", "std::iter::Iterator::enumerate", (zc,))
             if pred(src):
                 out.append((h, blocks, latches, src))
     return out
@@ -217,6 +225,8 @@ def stmt_writes(body, field):
         if not direct and pl["p"] and pl["p"][0]["k"] == "deref":
             # write through a `&mut` alias of the field: (*alias).x = ..
             pe = body.rec_place(pl, bi, si)
+            while isinstance(pe, tuple) and pe[0] == "mutated":
+                pe = pe[1]
             via_alias = field in fields_path(pe)[1]
         if direct or via_alias:
             out.append(("assign", bi, si, body.rec_place(pl, bi, si), body.rec_rvalue(s["rv"], bi, si)))
@@ -231,27 +241,44 @@ def stmt_writes(body, field):
 
 
 def _consumer(body, bb, idx, local):
-    """the call in the same block (or the next few) that receives `local` (a &mut temporary) as an argument"""
-    seen = set()
-    cur = bb
+    """the first call on the way from (bb, idx) that receives `local` (a &mut temporary) — or a copy, reborrow or move of it — as an argument.
+    The search follows the control flow (gotos, branches, calls that do not take it) for a bounded number of blocks, so that a reference handed to a
+    helper whose body was spliced in is still found at the call that finally uses it."""
     want = {local}
-    for _ in range(4):
+    seen = set()
+    work = [bb]
+    steps = 0
+    while work and steps < 60:
+        cur = work.pop(0)
+        if cur in seen:
+            continue
+        seen.add(cur)
+        steps += 1
         blk = body.blocks[cur]
+        if blk["cleanup"]:
+            continue
         for s in blk["stmts"]:
-            if s["k"] == "assign" and s["rv"]["k"] in ("ref", "use"):
-                src = s["rv"].get("place") or s["rv"].get("op", {}).get("place")
-                if src and src["l"] in want:
+            if s["k"] == "assign" and s["rv"]["k"] in ("ref", "use", "rawptr") and not s["place"]["p"]:
+                src = s["rv"].get("place") or (s["rv"].get("op") or {}).get("place")
+                if src and src["l"] in want and all(p["k"] == "deref" for p in src["p"]):
                     want.add(s["place"]["l"])
         t = blk["term"]
-        if t and t["k"] == "call":
-            for a in t["args"]:
-                if a["k"] in ("copy", "move") and a["place"]["l"] in want:
-                    return (cur, t)
-            return None
-        if t and t["k"] == "goto":
-            cur = t["t"]
+        if not t:
             continue
-        return None
+        if t["k"] == "call":
+            for a in t["args"]:
+                if a["k"] in ("copy", "move") and a["place"]["l"] in want and not a["place"]["p"]:
+                    return (cur, t)
+            if t.get("target") is not None:
+                work.append(int(t["target"]))
+        elif t["k"] == "goto":
+            work.append(int(t["t"]))
+        elif t["k"] == "switch":
+            work.extend(int(x[1]) for x in t["targets"])
+            work.append(int(t["otherwise"]))
+        elif t["k"] in ("assert", "drop"):
+            if t.get("target") is not None:
+                work.append(int(t["target"]))
     return None
 
 
@@ -786,6 +813,51 @@ def subst_simplify(e, pmap, upmap=None):
     return tuple(subst_simplify(x, pmap, upmap) if isinstance(x, tuple) else x for x in e)
 
 
+def callable_body(prog, c):
+    """(body, first explicit parameter) of a recovered callable value: a closure (parameter 1 is its environment, explicit parameters start at 2) or a
+    function item passed by name (`.filter(is_x)`, parameters start at 1)"""
+    if not isinstance(c, tuple):
+        return None, None
+    if c[0] == "closure":
+        return prog.body(c[1]), 2
+    if c[0] == "fn":
+        cands = prog.by_nname.get(c[1]) or []
+        return (cands[0] if len(cands) == 1 else None), 1
+    return None, None
+
+
+def shift_params(text, first):
+    """canonical atom strings are written for closures ($2 = first explicit parameter); for a function item the same parameter is $1"""
+    if first == 2:
+        return text
+    import re
+    return re.sub(r"\$(\d+)", lambda m: "$%d" % (int(m.group(1)) - 2 + first) if int(m.group(1)) >= 2 else m.group(0), text)
+
+
+def closure_caps(clos):
+    """capture map of a recovered closure value ('closure', name, ((captured name, expr), ..)), under both spellings of by-reference captures"""
+    caps = dict(clos[2]) if len(clos) > 2 else {}
+    caps.update({k.replace("_ref__", ""): v for k, v in list(caps.items())})
+    return caps
+
+
+def closure_rets_resolved(prog, clos):
+    """result expressions of a closure (or of a function item passed where a closure is expected), captured variables replaced by what was captured:
+    `|| old` with `let old = this.x` reads `$1.x` like `|| this.x`"""
+    if clos[0] == "closure":
+        cb = prog.body(clos[1])
+        caps = closure_caps(clos)
+    elif clos[0] == "fn":
+        cands = prog.by_nname.get(clos[1]) or []
+        cb = cands[0] if len(cands) == 1 else None
+        caps = {}
+    else:
+        return None
+    if cb is None:
+        return None
+    return [subst_simplify(novers(x[2]), {}, caps) for x in ret_assignments(cb)]
+
+
 def inline(prog, e, depth=3, only_crates=("melstf", "melvm", "tip911_stakeset")):
     """replace calls to local single-expression functions by their (substituted) result expression"""
     if not isinstance(e, tuple) or depth <= 0:
@@ -901,6 +973,39 @@ def variant_atoms(body):
     return out
 
 
+def int_switch_atoms(body):
+    """`match n { 0 => .., k => .. }` on an integer: a switch on n itself, no comparison is computed.  Each explicit arm K is the atom `n == K`
+    (expr ('isint', n, K)); forcing it to 1 takes that arm, to 0 excludes it."""
+    out = []
+    for bi, t in body.iter_terms("switch"):
+        if t.get("discr_ty") not in mir.INT_TYPES or t.get("exp") or len(t["targets"]) > 3:
+            continue
+        x = body.rec_operand(t["discr"], bi, "T")
+        if not isinstance(x, tuple) or x[0] in ("discr", "const") or as_cmp(x) or contains(x, lambda y: y[0] in ("unknown", "rec")):
+            continue
+        for val, tgt in t["targets"]:
+            out.append((("isint", x, int(val)), canon_cmp("Eq", x, ("const", t["discr_ty"], int(val))), bi))
+    return out
+
+
+def range_atoms(body):
+    """`(a..b).contains(&x)`: one call standing for the two comparisons `a <= x` and `x < b`; each half is an atom (expr ('rc', 'lo'|'hi', call)) that can
+    be forced on its own (sccp evaluates the call as their conjunction)"""
+    out = []
+    for bi, t in body.calls():
+        if t["exp"]:
+            continue
+        e = body.rec_call(t, bi)
+        if e[0] == "call" and e[1] in ("std::ops::Range::contains", "core::ops::Range::contains") and len(e[2]) == 2:
+            rg = mir.strip(e[2][0])
+            if rg[0] == "agg" and rg[1].endswith("ops::Range"):
+                d = dict(rg[3])
+                if "start" in d and "end" in d:
+                    out.append((("rc", "lo", e), canon_cmp("Le", d["start"], e[2][1]), bi))
+                    out.append((("rc", "hi", e), canon_cmp("Lt", e[2][1], d["end"]), bi))
+    return out
+
+
 OPTION_PREFIXES = ("std::option::Option<", "core::option::Option<")
 
 
@@ -940,7 +1045,7 @@ def presence_tests(body, pred):
 def _cmp_atoms(body):
     out = []
     seen = set()
-    for a in variant_atoms(body):
+    for a in variant_atoms(body) + int_switch_atoms(body) + range_atoms(body):
         if a[0] not in seen:
             seen.add(a[0])
             out.append(a)
